@@ -325,7 +325,7 @@ def expect(state, m):
         return ex
 
     ex.conserve = k in MOVE_SWAP
-    if _dups(sids) or None in sids:
+    if _dups(sids):      # (one story with an EMPTY storyID is a story like any other: no reference can name it)
         # story IDs are not unique (or a story has no ID): outside the stated domain of
         # C01-C06 - only conservation is judged
         ex.degenerate = True
@@ -548,7 +548,7 @@ def expect(state, m):
         def with_items(new):
             return unchanged[:si] + [(v, list(new))] + unchanged[si + 1:]
 
-        if _dups(iids) or None in iids:
+        if _dups(iids):      # (one item with an empty itemID: no reference can name it)
             ex.degenerate = True
             return ex
         if k in ('ItemInsert', 'EAItemInsert'):
